@@ -38,7 +38,7 @@ First(b) ==
     [] OTHER                 -> [k |-> "xx", size |-> 1, lo |-> 0,   hi |-> 0]      \* F5..FF
 
 IsCont(b) == b >= 128 /\ b <= 191
-Bad == [r |-> RuneError, size |-> 1]
+BadRune == [r |-> RuneError, size |-> 1]
 
 \* utf8.DecodeRuneInString(s[i:]) for 1 <= i <= Len(s): [r |-> rune, size |-> bytes consumed].
 \* An encoding error yields (RuneError, 1); a correctly encoded U+FFFD yields (RuneError, 3).
@@ -47,16 +47,16 @@ DecodeRune(s, i) ==
       p0 == s[i]
       x == First(p0)
   IN IF x.k = "as" THEN [r |-> p0, size |-> 1]
-     ELSE IF x.k = "xx" THEN Bad
-     ELSE IF n < x.size THEN Bad
+     ELSE IF x.k = "xx" THEN BadRune
+     ELSE IF n < x.size THEN BadRune
      ELSE LET b1 == s[i + 1] IN
-          IF b1 < x.lo \/ x.hi < b1 THEN Bad
+          IF b1 < x.lo \/ x.hi < b1 THEN BadRune
           ELSE IF x.size = 2 THEN [r |-> (p0 % 32) * 64 + (b1 % 64), size |-> 2]
           ELSE LET b2 == s[i + 2] IN
-               IF ~IsCont(b2) THEN Bad
+               IF ~IsCont(b2) THEN BadRune
                ELSE IF x.size = 3 THEN [r |-> (p0 % 16) * 4096 + (b1 % 64) * 64 + (b2 % 64), size |-> 3]
                ELSE LET b3 == s[i + 3] IN
-                    IF ~IsCont(b3) THEN Bad
+                    IF ~IsCont(b3) THEN BadRune
                     ELSE [r |-> (p0 % 8) * 262144 + (b1 % 64) * 4096 + (b2 % 64) * 64 + (b3 % 64), size |-> 4]
 
 IsEncodingError(d) == d.r = RuneError /\ d.size = 1
